@@ -13,7 +13,7 @@ def signature(lines, off):
 
 def run(ctx):
     # design level: one critical section => OrderAgree; a separate timestamp step => inversion (real-time mode)
-    ctx.model_check("attack", "Attack", "MCAttack.cfg", timeout=3000)
+    ctx.model_check("attack", "Attack", "MCAttack.cfg", timeout=3000, coverage=ctx.thorough)
     r = ctx.model_check("attack", "Attack", "MCAttackSplitTs.cfg", expect_ok=False)
     if "Invariant OrderAgree is violated" not in r["out"]:
         raise core.Infra("sensitivity: taking the timestamp in a separate step no longer violates OrderAgree in the model")
